@@ -605,6 +605,14 @@ func (c *Client) completeCPP(
 	if err != nil {
 		return nil, err
 	}
+	// A channel whose setup fails is abandoned. Close it, or its connection
+	// stays subscribed to the client's relay and takes the messages of a later
+	// opening that derives the same channel ID.
+	defer func() {
+		if err != nil {
+			ch.Close() //nolint:errcheck
+		}
+	}()
 
 	// If subchannel proposal receiver, setup register funding update.
 	if prop.Type() == wire.SubChannelProposal && partIdx == ProposeeIdx {
